@@ -579,17 +579,20 @@ func (c *Conn) run() (err error) {
 
 	c.timer = time.NewTimer(monotime.Until(c.idleTimeoutStartTime().Add(c.config.HandshakeIdleTimeout)))
 
-	if err := c.cryptoStreamHandler.StartHandshake(c.ctx); err != nil {
-		return err
-	}
-	if err := c.handleHandshakeEvents(monotime.Now()); err != nil {
-		return err
-	}
 	go func() {
 		if err := c.sendQueue.Run(); err != nil {
 			c.destroyImpl(err)
 		}
 	}()
+
+	// An error when starting the handshake closes the connection like any other error:
+	// the run loop below exits right away, and handleCloseError releases the streams,
+	// the connection IDs and the routing entries.
+	if err := c.cryptoStreamHandler.StartHandshake(c.ctx); err != nil {
+		c.setCloseError(&closeError{err: err})
+	} else if err := c.handleHandshakeEvents(monotime.Now()); err != nil {
+		c.setCloseError(&closeError{err: err})
+	}
 
 	if c.perspective == protocol.PerspectiveClient {
 		c.scheduleSending() // so the ClientHello actually gets sent
